@@ -309,3 +309,30 @@ def path_conditions(parents: dict, node: ast.AST) -> list:
             break
         n = par
     return out
+
+
+def lua_stack_cleanup(fn: ast.FunctionDef, stack: str):
+    """How call_lua_sandbox removes its entry from `ctx.<stack>` after the Lua call: ("snapshot", node) for
+    `while len(ctx.S) > N: ctx.S.pop()` with N assigned from `len(ctx.S)` before the call (also `del`/slice forms are not
+    used by the repository), ("blind", node) for `if len(ctx.S) > 0: ctx.S.pop()` / an unconditional pop, (None, None) when
+    there is no clean-up after the last try (or in its finally)."""
+    trys = [n for n in fn.body if isinstance(n, ast.Try)]
+    if not trys:
+        return None, None
+    t = trys[-1]
+    after = [n for n in fn.body if n.lineno > t.end_lineno] + list(t.finalbody)
+    snaps = {}
+    for n in walk_no_nested(fn):
+        if isinstance(n, ast.Assign) and len(n.targets) == 1 and isinstance(n.targets[0], ast.Name) and n.lineno < t.lineno \
+                and unparse(n.value).replace("self.", "ctx.") == "len(ctx.{})".format(stack):
+            snaps[n.targets[0].id] = n
+    for n in after:
+        src = unparse(n)
+        if "{}.pop()".format(stack) not in src:
+            continue
+        if isinstance(n, ast.While) and isinstance(n.test, ast.Compare) and len(n.test.ops) == 1 and isinstance(n.test.ops[0], ast.Gt) \
+                and unparse(n.test.left) == "len(ctx.{})".format(stack) and isinstance(n.test.comparators[0], ast.Name) \
+                and n.test.comparators[0].id in snaps:
+            return "snapshot", n
+        return "blind", n
+    return None, None
